@@ -7,18 +7,22 @@ _m(
     "shape; scan direction per image from {0,90,180,270,45,30,135,200,315}, whole degrees, or a float in [0,360); pad "
     "fraction in [0,1] incl. 0/0.25/0.5/1; pad_value in {median, mean, min, max, quantile 0.25}; number_knots 1..4; "
     "kde_sigma in [0.3,2]; warp upsample_factor 1..3; image content = unit mean + smooth (Gaussian sigma 1, periodic) noise "
-    "scaled to max |.| = contrast in [0.3,0.9], numpy seed drawn).  Two strategies: 'geometry' (distinct images, independent "
-    "directions; clauses 1-2) and 'fixed-point' (identical images, one direction, align_translation(upsample_factor in "
-    "{1,2,8}); clauses 1-3), and 'history' (same parameter space; the stack holds circularly shifted copies, shifts in "
+    "scaled to max |.| = contrast in [0.3,0.9], numpy seed drawn).  Three strategies: 'geometry' (distinct images, independent "
+    "directions; clauses 1-2), 'fixed-point' (identical images, one direction, align_translation(upsample_factor in "
+    "{1,2,3,4,7,8,16,31,32,33,40,48,64,100}); clauses 1-3), and 'history' (same parameter space; the stack holds "
+    "circularly shifted copies, shifts in "
     "[-3,3]^2 with at least one non-zero, of one image, one common or per-image scan directions; after the first "
     "preprocess() come 1..2 rounds of [optional public alignment step: align_translation(upsample_factor 1/2/8), "
     "align_affine(num_tests=3, refine=False) or align_nonrigid(1 iteration) - the two slow ones only on small stacks] -> "
-    "[optional change of one setting: pad fraction, number_knots, kde_sigma, pad_value, or scan_direction_degrees via its "
+    "[settings changed before the re-preprocess: none (3/8), or new scan_direction_degrees through the setter combined with "
+    "number_knots == 1 at the re-preprocess (3/8; half of them with no alignment step in between), or any 1..3 of pad "
+    "fraction, number_knots, kde_sigma, pad_value, scan directions via the "
     "setter] -> preprocess() again; clauses 1-2 are judged after every preprocess(), incl. preprocess(); preprocess() with no "
     "alignment).  A geometry / fixed-point case is NON-TRIVIAL when (R != C and at least one scan direction is not a "
     "multiple of 90 degrees) or number_knots >= 2; a history case is NON-TRIVIAL when an alignment step displaced some knot "
     "by >= 0.25 px before a judged re-preprocess (class history_knots_moved; history_same_settings_after_move counts those "
-    "re-initialised with unchanged settings); distinct = SHA-1 of the canonical JSON of the whole case.",
+    "re-initialised with unchanged settings) or the scan directions were replaced and the re-preprocess used a single knot "
+    "(class history_new_angles_single_knot); distinct = SHA-1 of the canonical JSON of the whole case.",
     [
         "scan-direction convention taken from the class docstring + array indexing: angle 0 copies the image unrotated "
         "(fast = +col, slow = +row); angle t applies the proper rotation fast = (-sin t, cos t), slow = (cos t, sin t)",
@@ -33,7 +37,7 @@ _m(
         "auto-correlation of the warped image computed by the harness.  align_translation correlates the float32 warped "
         "images (numpy gives complex64 FFTs), so the parabolic sub-pixel vertex of the zero-lag peak is only zero to "
         "rounding, ~ eps32 * peak / curvature px; measured movement / that figure <= 0.93 over 1200 random and <= 0.61 over "
-        "3000 Hypothesis-targeted identical stacks (absolute: <= 5.4e-4 px at upsample_factor 1, <= 4e-5 at 2 and 8; "
+        "3000 Hypothesis-targeted identical stacks (absolute: <= 5.4e-4 px at upsample_factor 1, <= 4e-5 at 2 and 8; ratio <= 0.12 for every factor 2..100 over 2500 stacks; "
         "allowance is typically 1e-5..1e-3 px, at most ~0.09 px for sigma 2 / contrast 0.3, vs. 0.25 px for the defect)",
         "fixed point: images_warped is compared before/after with tolerance 2e-5 + K * value range * (observed knot "
         "movement): the warp is Lipschitz in a uniform knot shift; with unit point density the KDE count has slope <= "
